@@ -219,7 +219,7 @@ fn directed(out: &mut Out) {
 pub fn run(cfg: &Cfg, out: &mut Out) {
     let mut r = cfg.rng(23);
     directed(out);
-    let workspaces = cfg.n(100, 800);
+    let workspaces = cfg.n(250, 1200);
     for w in 0..workspaces {
         let mut env = Env::new();
         // start from a checked-out tree in two thirds of the workspaces, sparse in a third
